@@ -29,7 +29,9 @@ Record fcall := {
   fc_dummies : list string;              (* dummy arguments of the Fortran specific *)
   fc_kinds : list (string * dkind);      (* their declared kinds *)
   fc_params : list string;               (* parameter names of the bind(C) interface, in order *)
-  fc_args : list (fconv * string)        (* actual arguments of the call, in order: conversion, dummy (or local) *)
+  fc_args : list (fconv * string);       (* actual arguments of the call, in order: conversion, dummy (or local) *)
+  fc_outputs : list string;              (* dummy arguments declared intent(out) or intent(inout) *)
+  fc_copyback : list string              (* dummy arguments assigned from their local after the call *)
 }.
 
 Definition mem (s : string) (l : list string) : bool := existsb (String.eqb s) l.
@@ -81,7 +83,21 @@ Fixpoint args_ok (ks : list (string * dkind)) (ds ps : list string) (args : list
   | _, _ => false
   end.
 
-Definition fcall_ok (f : fcall) : bool := args_ok (fc_kinds f) (fc_dummies f) (fc_params f) (fc_args f).
+(* an output dummy reaches the C function through its own storage, or through a local that is copied back afterwards *)
+Definition by_ref (c : fconv) : bool := match c with FDirect | FCLoc | FCapsule | FSelf => true | _ => false end.
+Definition out_ok (outs cb : list string) (a : fconv * string) : bool :=
+  let '(c, r) := a in
+  if mem r outs && passes_value c then by_ref c || (fconv_eqb c FBool && mem r cb) else true.
+Definition outs_ok (f : fcall) : bool := forallb (out_ok (fc_outputs f) (fc_copyback f)) (fc_args f).
+
+Definition fcall_ok (f : fcall) : bool :=
+  args_ok (fc_kinds f) (fc_dummies f) (fc_params f) (fc_args f) && outs_ok f.
+
+(* what the caller's variable holds after the call, when the C function stored [stored r] through the argument it was given *)
+Definition caller_sees (f : fcall) (stored before : string -> nat) (r : string) : nat :=
+  if existsb (fun a => by_ref (fst a) && String.eqb (snd a) r) (fc_args f) then stored r
+  else if existsb (fun a => fconv_eqb (fst a) FBool && String.eqb (snd a) r) (fc_args f) && mem r (fc_copyback f) then stored r
+  else before r.
 
 
 (* ---- values ---- *)
